@@ -265,7 +265,11 @@ def WriteOp.apply (d : Det) : WriteOp → Det
   | .set .pixel v => { d with pixel := v }
   | .set .signal v => { d with signal := v }
   | .set .image v => { d with image := v }
-  | .addPixel k => { d with pixel := some (d.pixel.getD 0 + k) }
+  | .addPixel k =>
+    -- tokens ≥ 900000000 stand for arrays with a NaN / ±inf entry (or arbitrary content): adding a
+    -- finite number leaves them what they are
+    let p := d.pixel.getD 0
+    { d with pixel := some (if p ≥ 900000000 then p else p + k) }
 
 /-- the per-step effect described by a plan (one list of writes per step; no writes beyond it) -/
 def planEffect (plan : List (List WriteOp)) (i : Nat) (d : Det) : Det :=
